@@ -7,6 +7,7 @@ import (
 	"os"
 	"os/exec"
 	"path/filepath"
+	"regexp"
 	"sort"
 	"strings"
 	"sync"
@@ -43,6 +44,8 @@ type Conv struct {
 	Imports []string `json:"imports,omitempty"`
 	// PkgName: the input package must have this name (implies Solo); its directory is n<idx>/<PkgName>
 	PkgName string `json:"pkg_name,omitempty"`
+	// Bounds overrides the driver's input bounds for this program
+	Bounds *Bounds `json:"bounds,omitempty"`
 	// LoadErr: type errors of the emitted code (C01 gate)
 	LoadErr string `json:"load_err,omitempty"`
 	// filled by the builder
@@ -210,9 +213,10 @@ func (c *Corpus) Source(group string) string {
 			fmt.Fprintf(&sb, "import %s\n", cv.subst(im))
 		}
 	}
+	sb.WriteString("// VerifHook lets the native replay program the results of the custom functions below\n// (the symbolic engine never executes their bodies: they are havoc stubs).\nvar VerifHook = func(name string, outs ...any) {}\n\n")
 	for _, cv := range convs {
 		fmt.Fprintf(&sb, "// ---- %s (%s)\n", cv.ID, cv.Family)
-		sb.WriteString(cv.subst(cv.Decls))
+		sb.WriteString(hookBodies(cv.subst(cv.Decls)))
 		sb.WriteString("\n")
 		switch cv.Format {
 		case "variable":
@@ -384,4 +388,38 @@ func (c *Corpus) Generate(workers int) error {
 		}
 	}
 	return nil
+}
+
+var funcLine = regexp.MustCompile(`^func (\([^)]*\) )?(\w+)\((.*)\) (\([^{]*\)|[^ {(][^{]*?) \{ return .*\}\s*$`)
+
+// hookBodies rewrites the one-line custom functions of a declaration block so that their results
+// can be programmed by the native replay through VerifHook.
+func hookBodies(decls string) string {
+	lines := strings.Split(decls, "\n")
+	for i, l := range lines {
+		m := funcLine.FindStringSubmatch(l)
+		if m == nil {
+			continue
+		}
+		recv, name, params, results := m[1], m[2], m[3], strings.TrimSpace(m[4])
+		results = strings.TrimSuffix(strings.TrimPrefix(results, "("), ")")
+		var rts []string
+		for _, r := range strings.Split(results, ",") {
+			rts = append(rts, strings.TrimSpace(r))
+		}
+		hookName := name
+		if recv != "" {
+			// (s PFXIn) -> PFXIn.Name
+			f := strings.Fields(strings.Trim(strings.TrimSpace(recv), "()"))
+			hookName = strings.TrimPrefix(f[len(f)-1], "*") + "." + name
+		}
+		var decl, outs, rets []string
+		for k, rt := range rts {
+			decl = append(decl, fmt.Sprintf("var r%d %s", k, rt))
+			outs = append(outs, fmt.Sprintf("&r%d", k))
+			rets = append(rets, fmt.Sprintf("r%d", k))
+		}
+		lines[i] = fmt.Sprintf("func %s%s(%s) (%s) { %s; VerifHook(%q, %s); return %s }", recv, name, params, strings.Join(rts, ", "), strings.Join(decl, "; "), hookName, strings.Join(outs, ", "), strings.Join(rets, ", "))
+	}
+	return strings.Join(lines, "\n")
 }
